@@ -320,9 +320,20 @@ def main():
         kids = [gen_node(rng, rng.randint(1, 4), used, False, arr_in_seq) for _ in range(rng.randint(0, 4))]
         dsname = rng.choice(IDENTS + QUOTED)
         ds = DatasetType(dsname)
-        for k in kids:
+        for ki, k in enumerate(kids):
             c = build(k)
+            if k[0] == "struct" and len(k[2]) >= 2 and rng.random() < 0.4:
+                # the members of a Structure in the order of a selection (a sub-selection that re-orders and may leave members out)
+                sel = rng.sample(k[2], rng.randint(1, len(k[2])))
+                c = c[tuple(m[1] for m in sel)]
+                kids[ki] = k = ("struct", k[1], sel)
+                stats["reordered"] = stats.get("reordered", 0) + 1
             ds[c.name] = c
+        if len(kids) >= 2 and rng.random() < 0.3:
+            sel = rng.sample(kids, rng.randint(1, len(kids)))
+            ds = ds[tuple(k[1] for k in sel)]
+            kids = sel
+            stats["reordered"] = stats.get("reordered", 0) + 1
         stats["trees"] += 1
         r.count(("tree", repr(kids), dsname))
         text = "".join(dds(ds))
